@@ -272,3 +272,43 @@ def set_script(fn, allow_nan=False, parallel=False):
 
 def created_optimizers():
     return _OPT.created
+
+
+# --------------------------------------------------------------------------
+# user-side transforms (as users write them, cf. tests/test_optimizer.py)
+# --------------------------------------------------------------------------
+def make_transforms(var_scales=None, var_offsets=None, obj_scales=None, con_scales=None):
+    from ropt.transforms import OptModelTransforms, VariableScaler
+    from ropt.transforms.base import NonLinearConstraintTransform, ObjectiveTransform
+
+    class ObjectiveScaler(ObjectiveTransform):
+        def __init__(self, scales):
+            self._scales = scales
+
+        def to_optimizer(self, objectives):
+            return objectives / self._scales
+
+        def from_optimizer(self, objectives):
+            return objectives * self._scales
+
+    class ConstraintScaler(NonLinearConstraintTransform):
+        def __init__(self, scales):
+            self._scales = scales
+
+        def bounds_to_optimizer(self, lower_bounds, upper_bounds):
+            return lower_bounds / self._scales, upper_bounds / self._scales
+
+        def to_optimizer(self, constraints):
+            return constraints / self._scales
+
+        def from_optimizer(self, constraints):
+            return constraints * self._scales
+
+        def nonlinear_constraint_diffs_from_optimizer(self, lower_diffs, upper_diffs):
+            return lower_diffs * self._scales, upper_diffs * self._scales
+
+    return OptModelTransforms(
+        variables=VariableScaler(var_scales, var_offsets) if (var_scales is not None or var_offsets is not None) else None,
+        objectives=ObjectiveScaler(obj_scales) if obj_scales is not None else None,
+        nonlinear_constraints=ConstraintScaler(con_scales) if con_scales is not None else None,
+    )
